@@ -7,6 +7,7 @@
    their atomic steps; [ret_time] / [may_choose] describe ChannelSink's select in a timed model. *)
 From Coq Require Import List NArith ZArith.
 From Verif Require Import Sinks SinksProofs SinksExamples.
+From Verif Require Run_Sinks RunSinksSound.
 Import ListNotations.
 
 (* writer.Sink reports success exactly when a writer is configured, the event carries bytes for the configured format (JSON when
@@ -152,6 +153,24 @@ Theorem C13_channel_bounded_partial : forall T,
   (ret_time T <= t0 T + timeout T)%Z /\ (forall td, ctx_at T = Some td -> (ret_time T <= Z.max (t0 T) td)%Z).
 Proof. exact channel_bounded. Qed.
 Print Assumptions C13_channel_bounded_partial.
+
+(* ---------- what the check's verdict means ----------
+   The correspondence part of the check evaluates Run_Sinks.mismatches with vm_compute.  An empty list means exactly: every
+   case is accepted — writer.Sink / FileSink: the observed result and Write calls / delivered bytes are the model's on the
+   case's inputs and the statement of C13 holds on the observations; concurrent calls: the stream is the concatenation of the
+   successful calls' whole values, each once; ChannelSink: exactly-one holds and the arm taken is one the timed model allows
+   within the case's slack (the timing-ambiguous choice is read off the observation; with slack 0 that is Sinks.may_choose,
+   RunSinksSound.within_slack_0).  The engine reports kind KFsRetryPrefix as the KNOWN-FINDING KF-C13-filesink-retry-leaves-prefix,
+   so what it requires is the second theorem: the same acceptance with that one shape admitted. *)
+Theorem C13_verdict_is_model_execution : forall cs,
+  Run_Sinks.mismatches cs = [] <-> Forall (fun ic => RunSinksSound.case_ok true (snd ic)) cs.
+Proof. exact RunSinksSound.mismatches_nil_iff. Qed.
+Print Assumptions C13_verdict_is_model_execution.
+
+Theorem C13_verdict_modulo_known_finding : forall cs,
+  RunSinksSound.modulo_known (Run_Sinks.mismatches cs) = [] <-> Forall (fun ic => RunSinksSound.case_ok false (snd ic)) cs.
+Proof. exact RunSinksSound.mismatches_modulo_known_nil_iff. Qed.
+Print Assumptions C13_verdict_modulo_known_finding.
 
 Theorem C13_nonvacuous :
   fst (writer_process 0 false (Some tab) w_ok) = SOk /\ fst (writer_process 2 false (Some tab) w_short) = SErr /\
